@@ -282,6 +282,9 @@ def main(ctx: Ctx) -> int:
         ctx.violation(f"C20|{clause}|stage={e['act']}", f"project {tr['project']} ({tr['be']}): stage {e['act']} {e.get('err', '')} {e.get('diff', '')}: {rj['clauses']}; "
                       f"cli: {tr['cli'][:300]}", {"cli": tr["cli"], "event": e, "requested": tr["req"], "clauses": rj["clauses"]})
     cov["samples"].append({"cli": traces[0]["cli"][:400], "events": [e["act"] for e in traces[0]["ev"]]})
+    # histories of a project directory (Project.tla): init / hand edit / render [--force] / render --patch / second init
+    import project_life
+    project_life.run(ctx, cov)
     cov["rule"] = "init+render runs over five project kinds x three solver choices with padded / empty tokens in list options; non-trivial = every run"
     cov["exhaustive"] = False
     return finish(ctx, "model_checking", cov, [
